@@ -1,0 +1,45 @@
+//! Verification hooks.
+//!
+//! Only compiled with `--cfg essential_base_verif`. With no hooks installed
+//! every call below is a no-op, so behaviour is unchanged.
+
+use crate::{Gas, Vm};
+use std::sync::OnceLock;
+
+/// The point of `Vm::exec` at which [`Hooks::on_vm`] is called.
+#[derive(Clone, Copy, Debug, PartialEq, Eq)]
+pub enum VmEvent {
+    /// Top of the execution loop, before the operation at `vm.pc` is fetched.
+    BeforeOp,
+    /// Directly after an operation was stepped, before its result is handled.
+    AfterOp,
+}
+
+/// Callbacks installed by an external verification harness.
+pub struct Hooks {
+    /// Called from `Vm::exec` with the VM and the gas spent so far by that call.
+    pub on_vm: fn(VmEvent, &Vm, Gas),
+    /// Called at named synchronisation points (e.g. before a lazy cache is initialised).
+    pub sync_point: fn(&'static str),
+}
+
+static HOOKS: OnceLock<Hooks> = OnceLock::new();
+
+/// Install the hooks. Returns `false` if hooks were already installed.
+pub fn install(hooks: Hooks) -> bool {
+    HOOKS.set(hooks).is_ok()
+}
+
+#[inline]
+pub(crate) fn on_vm(event: VmEvent, vm: &Vm, gas_spent: Gas) {
+    if let Some(h) = HOOKS.get() {
+        (h.on_vm)(event, vm, gas_spent)
+    }
+}
+
+#[inline]
+pub(crate) fn sync_point(name: &'static str) {
+    if let Some(h) = HOOKS.get() {
+        (h.sync_point)(name)
+    }
+}
